@@ -1,5 +1,7 @@
 import Iavl.Lemmas.MembershipComplete
 import Iavl.Lemmas.NonMembershipSound
+import Iavl.Lemmas.NonMembershipComplete
+import Iavl.Lemmas.VMachineInv
 import Iavl.Generated.FactsOk
 /-
   C03 — ICS-23 proofs: complete for every key and bound to key, value and root.
@@ -84,5 +86,42 @@ theorem no_opposite_claim (working : Nat) (t : Node Bytes Bytes) (ho : Ordered t
       exact this (by simp [Std.ReflCmp.compare_self])
     · exact hc
   · exact hc
+
+include hH in
+/-- **completeness for present keys under the verifier model**: the generated existence proof of a
+    stored pair is accepted (non-empty key and value: K28 / K6 are exactly the excluded cases) -/
+theorem generated_membership_verifies (working : Nat) (t : Node Bytes Bytes) (key v : Bytes) (ho : Ordered t)
+    (ha : AVL t) (hb : BoundedS working t) (hv : lookup key t.toList = some v) (hk0 : key ≠ []) (hv0 : v ≠ []) :
+    verifyExist H (hashNode H working t) (mkProof H working t key) key v = true :=
+  verifyExist_generated H hH working t key v ho (AVL.heightOK t ha) hb hv hk0 hv0
+
+include hH in
+/-- **completeness for absent keys**: what `GetNonMembershipProof` builds (rank of the key, the pairs
+    at rank-1 and rank, one existence proof each) is a non-existence proof that the verifier model
+    accepts - its neighbours verify, bracket the key, and pass `IsLeftMost` / `IsRightMost` /
+    `IsLeftNeighbor` - for every ordered AVL tree within the prefix window (height < 64, size and
+    versions < 2^34) with non-empty keys and values -/
+theorem generated_nonmembership_verifies (working : Nat) (t : Node Bytes Bytes) (key : Bytes)
+    (ho : Ordered t) (ha : AVL t) (hb : BoundedS working t)
+    (hne : ∀ p ∈ t.toList, p.1 ≠ [] ∧ p.2 ≠ [])
+    (habs : lookup key t.toList = none) :
+    ∃ l r, nonMemProofG H working t key = .nonexist key l r ∧
+      verifyNonExist H (hashNode H working t) ⟨key, l, r⟩ key = true :=
+  nonmembership_complete H hH working t key ho (avl_sizeOK t ha) (AVL.heightOK t ha) hb hne habs
+
+/-- asking for the wrong kind is an error: no non-membership proof for a present key -/
+theorem nonmembership_of_present_is_error (working : Nat) (t : Node Bytes Bytes) (key v : Bytes)
+    (ho : Ordered t) (ha : AVL t) (hv : lookup key t.toList = some v) :
+    nonMemProofG H working t key = .err := by
+  simp [nonMemProofG, get_eq t key ho (avl_sizeOK t ha), hv]
+
+/-- the premises are satisfiable: a two-leaf tree meets them -/
+example : let t : Node Bytes Bytes := .inner [2] 1 2 (some 1) (.leaf [1] [7] (some 1)) (.leaf [2] [8] (some 1))
+    Ordered t ∧ AVL t ∧ BoundedS 1 t ∧ (∀ p ∈ t.toList, p.1 ≠ [] ∧ p.2 ≠ []) := by
+  refine ⟨⟨trivial, trivial, ?_, ?_⟩, ⟨trivial, trivial, rfl, rfl, by decide, by decide⟩,
+    ⟨by decide, by decide, by decide, by decide, by simp [BoundedS, verOf], by simp [BoundedS, verOf]⟩, ?_⟩
+  · intro p hp; simp [Node.toList] at hp; subst hp; decide
+  · intro p hp; simp [Node.toList] at hp; subst hp; decide
+  · intro p hp; simp [Node.toList] at hp; rcases hp with h | h <;> subst h <;> simp
 
 end Iavl.Props.C03
